@@ -1002,3 +1002,17 @@ package keeper
 
 //@ func headersStateTransitionsAreConflicting
 //@ ensures [def] result <==> !(bytes.Equal(h1.ValidatorsHash, h2.ValidatorsHash) && bytes.Equal(h1.NextValidatorsHash, h2.NextValidatorsHash) && bytes.Equal(h1.ConsensusHash, h2.ConsensusHash) && bytes.Equal(h1.AppHash, h2.AppHash) && bytes.Equal(h1.LastResultsHash, h2.LastResultsHash))
+
+// ---------------------------------------------------------------- C06 / C17 / C12: genesis import restores what was exported
+
+//@ func Keeper.InitGenesis
+//@ requires genState != nil
+//@ requires [W-keys-present] forall j int :: 0 <= j && j < len(genState.ValidatorConsumerPubkeys) ==> genState.ValidatorConsumerPubkeys[j].ConsumerKey != nil
+//@ loop 1 step [height-map-imported] k.GetValsetUpdateBlockHeight(ctx, v2h.ValsetUpdateId).1 && k.GetValsetUpdateBlockHeight(ctx, v2h.ValsetUpdateId).0 == v2h.Height
+//@ loop 2 step [client-bound] k.GetConsumerClientId(ctx, cs.ChainId).1 && k.GetConsumerClientId(ctx, cs.ChainId).0 == cs.ClientId && k.GetClientIdToConsumerId(ctx, cs.ClientId).1 && k.GetClientIdToConsumerId(ctx, cs.ClientId).0 == cs.ChainId && k.GetConsumerPhase(ctx, cs.ChainId) == cs.Phase
+//@ loop 2 step [channel-bound] cs.ChannelId != "" ==> k.GetConsumerIdToChannelId(ctx, cs.ChainId).1 && k.GetConsumerIdToChannelId(ctx, cs.ChainId).0 == cs.ChannelId && k.GetChannelIdToConsumerId(ctx, cs.ChannelId).1 && k.GetChannelIdToConsumerId(ctx, cs.ChannelId).0 == cs.ChainId && k.GetInitChainHeight(ctx, cs.ChainId).1 && k.GetInitChainHeight(ctx, cs.ChainId).0 == cs.InitialHeight
+//@ loop 3 step [key-assignment-imported] k.GetValidatorConsumerPubKey(ctx, item.ChainId, types.NewProviderConsAddress(item.ProviderAddr)).1 && k.GetValidatorConsumerPubKey(ctx, item.ChainId, types.NewProviderConsAddress(item.ProviderAddr)).0 == *item.ConsumerKey
+//@ loop 4 step [reverse-index-imported] k.GetValidatorByConsumerAddr(ctx, item#2.ChainId, types.NewConsumerConsAddress(item#2.ConsumerAddr)).1 && k.GetValidatorByConsumerAddr(ctx, item#2.ChainId, types.NewConsumerConsAddress(item#2.ConsumerAddr)).0 == types.NewProviderConsAddress(item#2.ProviderAddr)
+//@ loop 6 step [prune-entry-imported] $AppendConsumerAddrsToPrune.called && $AppendConsumerAddrsToPrune.consumerId == item#3.ChainId && $AppendConsumerAddrsToPrune.pruneTs == item#3.PruneTs && $AppendConsumerAddrsToPrune.consumerAddr == types.NewConsumerConsAddress(addr)
+//@ ensures [id-imported] $SetValidatorSetUpdateId.called && $SetValidatorSetUpdateId.valUpdateID == genState.ValsetUpdateId
+//@ ensures [returns-genesis-updates] $InitGenesisValUpdates.called && result == $InitGenesisValUpdates.ret
